@@ -7,10 +7,13 @@ IDS="$@"; [ -z "$IDS" ] && IDS=$(ls selftest/mutants selftest/equivalents 2>/dev
 TMPROOT=$(mktemp -d ${TMPDIR:-/tmp}/verif-scratch.XXXXXX)
 trap 'rm -rf $TMPROOT' EXIT
 fail=0
+# one snapshot of the repository for the whole run (the live tree may be edited meanwhile)
+mkdir -p $TMPROOT/base
+(cd /repo && git ls-files -z --cached --others --exclude-standard | xargs -0 cp --parents -t $TMPROOT/base) 2>/dev/null
 run_one() { # kind id patch
   kind=$1; id=$2; patch=$3; name=$(basename $patch .patch)
   d=$TMPROOT/$id-$name; mkdir -p $d/repo $d/out $d/ev
-  (cd /repo && git ls-files -z --cached --others --exclude-standard | xargs -0 cp --parents -t $d/repo) 2>/dev/null
+  cp -a $TMPROOT/base/. $d/repo/
   (cd $d/repo && patch -p1 -s < $patch) || { echo "SELFTEST-ERROR $id/$name: patch does not apply"; return 1; }
   out=$(VERIF_REPO=$d/repo VERIF_OUT=$d/out VERIF_EVIDENCE_DIR=$d/ev engine/bin/govc check $id quick 2>&1)
   nviol=$(echo "$out" | grep -c '^VIOLATION')
@@ -27,7 +30,7 @@ for id in $IDS; do
   for p in selftest/mutants/$id/*.patch; do [ -f "$p" ] && jobs+=("mutant $id /verif/$p"); done
   for p in selftest/equivalents/$id/*.patch; do [ -f "$p" ] && jobs+=("equiv $id /verif/$p"); done
 done
-printf '%s\n' "${jobs[@]}" | xargs -P 3 -I{} bash -c 'run_one {}' | tee $TMPROOT/log
+printf '%s\n' "${jobs[@]}" | xargs -P 2 -I{} bash -c 'run_one {}' | tee $TMPROOT/log
 grep -cE "^(MISS|FALSE-ALARM|SELFTEST-ERROR)" $TMPROOT/log > $TMPROOT/nbad
 echo "selftest: $(grep -c '^ok' $TMPROOT/log) ok, $(cat $TMPROOT/nbad) bad"
 [ "$(cat $TMPROOT/nbad)" = "0" ]
